@@ -245,6 +245,9 @@ func (f *trFunc) expr(e ast.Expr) string {
 		return f.composite(x)
 	case *ast.IndexExpr:
 		t := f.typeOf(x.X)
+		if f.inLedger() && isLedgerMap(t) {
+			return "(" + f.arg(x.X) + "[" + f.expr(x.Index) + "]?)"
+		}
 		if m := mapOf(t); m != nil {
 			if !isStringType(m.Key()) {
 				f.problem(x, "index into %s", f.tr.pr.typeStr(t))
@@ -268,6 +271,9 @@ func (f *trFunc) expr(e ast.Expr) string {
 		return "(← gidx " + f.arg(x.X) + " " + f.intArg(x.Index) + ")"
 	case *ast.SliceExpr:
 		t := f.typeOf(x.X)
+		if f.inLedger() && isKeyArray(t) && x.Low == nil && x.High == nil && !x.Slice3 {
+			return f.expr(x.X) // k[:] of a 32-byte key: the key
+		}
 		if _, ok := t.Underlying().(*types.Slice); !ok || isByteSlice(t) || x.Slice3 {
 			f.problem(x, "slice expression on %s", f.tr.pr.typeStr(t))
 			return "unsupported"
@@ -461,7 +467,7 @@ func (f *trFunc) cond(e ast.Expr) string {
 				switch lt.Underlying().(type) {
 				case *types.Basic:
 				default:
-					if !isErrorType(lt) { // errors: comparison of the labels
+					if !isErrorType(lt) && !(f.inLedger() && isKeyArray(lt)) { // errors: comparison of the labels
 						f.problem(x, "comparison of %s values", f.tr.pr.typeStr(lt))
 					}
 				}
@@ -510,6 +516,11 @@ func (f *trFunc) nilTest(e ast.Expr, isNil bool, at ast.Node) string {
 			}
 			f.problem(at, "nil test of `%s`, which is treated as never nil", f.src(e))
 		}
+		if isNil {
+			return "(" + s + ".isNone = true)"
+		}
+		return "(" + s + ".isSome = true)"
+	case isByteSlice(t) && f.lbytes[f.objOf(e)]:
 		if isNil {
 			return "(" + s + ".isNone = true)"
 		}
@@ -788,6 +799,9 @@ func (f *trFunc) call(c *ast.CallExpr) string {
 				}
 			case "make":
 				t := f.typeOf(c)
+				if f.inLedger() && isLedgerMap(t) && len(c.Args) == 1 {
+					return "({} : LMap)"
+				}
 				if m := mapOf(t); m != nil && isStringType(m.Key()) {
 					return "[]"
 				}
@@ -808,6 +822,12 @@ func (f *trFunc) call(c *ast.CallExpr) string {
 	}
 	if v, ok := f.oracleFnFor(c); ok {
 		return v
+	}
+	if vals, ok := f.ledgerCall(c); ok {
+		if len(vals) == 1 {
+			return vals[0]
+		}
+		return "(" + strings.Join(vals, ", ") + ")"
 	}
 	if vals, ok := f.specialCall(c); ok {
 		if len(vals) == 1 {
@@ -833,7 +853,16 @@ func (f *trFunc) call(c *ast.CallExpr) string {
 		switch full {
 		case "github.com/holiman/uint256.NewInt":
 			return f.arg(c.Args[0])
+		case "bytes.Equal":
+			if f.round4() && len(c.Args) == 2 {
+				return "(decide (" + f.arg(c.Args[0]) + " = " + f.arg(c.Args[1]) + "))"
+			}
 		case "bytes.Compare":
+			if f.inLedger() {
+				if a, ok := ast.Unparen(c.Args[0]).(*ast.SliceExpr); ok && isKeyArray(f.typeOf(a.X)) {
+					return "(cmpKey " + f.arg(c.Args[0]) + " " + f.arg(c.Args[1]) + ")"
+				}
+			}
 			return "(cmpBytes " + f.arg(c.Args[0]) + " " + f.arg(c.Args[1]) + ")"
 		}
 		if ex, ok := f.tr.exp.Externs[full]; ok {
